@@ -91,6 +91,9 @@ def run_cases():
         case("alias", lambda: [Q.me().alias("self").fields(U.id)], [],
              extra=lambda p: [] if "self: me" in p["query"] else ["alias not emitted"])
         case("inline-fragments-on-union", lambda: [Q.actor(id="1").on("User", U.id, U.user_name).on("Bot", cf.BotFields.model)], ["1"])
+        case("interface-field-with-common-sub-fields-and-inline-fragments", lambda: [Q.node(id="1").fields(cf.NodeInterface.id).on("User", U.user_name).on("Bot", cf.BotFields.model)], ["1"],
+             extra=lambda p: [] if all(x in p["query"] for x in ("id", "... on User", "userName", "... on Bot", "model")) and p["query"].count(" id") >= 1 and
+             __import__("re").search(r"node\(id: \$id_0\) \{\s+id\b", p["query"]) else ["common sub-field or inline fragment missing: " + p["query"].replace("\n", " ")])
         case("mutation-with-required-args", lambda: [cm.Mutation.rename(id="1", new_name="n").fields(U.id)], ["1", "n"], mutation=True)
 
         case("same-argument-list-different-nullability-1", lambda: [Q.find_user(id="1").fields(U.id), Q.user(id="2").fields(U.id)], ["1", "2"])
